@@ -10,6 +10,7 @@ no-op shortcut skipped every check (`c33_orig_violates`).
 import P2.Model.GroupState
 import P2.Model.GroupCrdt
 import P2.Lemmas.GroupState
+import P2.Extracted.C33
 
 namespace P2.C33
 open P2.GroupState P2.GroupCrdt
@@ -655,6 +656,184 @@ theorem c33_orig_violates :
 theorem c33_repaired_promote_sound : PromoteSound promote ∧ PromoteSound demote :=
   ⟨fun s p t acc h => (c33_promote_ok_iff s p t acc).1 h,
    fun s p t acc h => (c33_demote_ok_iff s p t acc).1 h⟩
+
+/-! ## Tie to the current source text (regenerated into `P2/Extracted/C33.lean` on every run) -/
+
+section Source
+set_option linter.unusedSimpArgs false
+open P2.Extracted.C33
+
+/-- the id is a key of the member map -/
+def knownB (s : State K C) (k : K) : Bool := (get? s k).isSome
+/-- the id is an active member -/
+def memberB (s : State K C) (k : K) : Bool :=
+  match get? s k with
+  | some m => m.isMember
+  | none => false
+/-- the id's stored access level is Manage (whether active or not) -/
+def managerB (s : State K C) (k : K) : Bool :=
+  match get? s k with
+  | some m => m.isManager
+  | none => false
+def pullerB (s : State K C) (k : K) : Bool :=
+  match get? s k with
+  | some m => m.isPuller
+  | none => false
+
+def errName : Err K → String
+  | .alreadyAdded _ => "AlreadyAdded"
+  | .alreadyRemoved _ => "AlreadyRemoved"
+  | .insufficientAccess _ => "InsufficientAccess"
+  | .inactiveActor _ => "InactiveActor"
+  | .inactiveMember _ => "InactiveMember"
+  | .unrecognisedActor _ => "UnrecognisedActor"
+  | .unrecognisedMember _ => "UnrecognisedMember"
+
+def errOf {α : Type} : Except (Err K) α → Option String
+  | .ok _ => none
+  | .error e => some (errName e)
+
+/-- The rejections of the model's `add` are exactly the early-return chain of `state::add` as it stands
+    in `state.rs` now (`addChecksT`: each `return Err(..)` with its guard, in source order). A reordered,
+    dropped, added or altered check changes the generated chain and this theorem no longer checks. -/
+theorem c33_add_checks_are_source (s : State K C) (adder added : K) (acc : Access C) :
+    errOf (add s adder added acc) =
+      addChecksT (knownB s adder) (memberB s adder) (managerB s adder) (knownB s added) (memberB s added)
+        (decide (adder = added)) := by
+  unfold add addChecksT knownB memberB managerB
+  cases h1 : get? s adder with
+  | none => simp [errOf, errName]
+  | some a =>
+    cases hm : a.isMember <;> cases hg : a.isManager <;> simp [errOf, errName, hm, hg]
+    cases h2 : get? s added with
+    | none => simp [errOf]
+    | some m => cases hm2 : m.isMember <;> simp [errOf, errName, hm2]
+
+theorem c33_remove_checks_are_source (s : State K C) (remover removed : K) :
+    errOf (remove s remover removed) =
+      removeChecksT (knownB s remover) (memberB s remover) (managerB s remover) (knownB s removed)
+        (memberB s removed) (decide (remover = removed)) := by
+  unfold remove removeChecksT knownB memberB managerB
+  cases h1 : get? s remover with
+  | none => simp [errOf, errName]
+  | some a =>
+    cases hm : a.isMember <;> simp [errOf, errName, hm]
+    by_cases he : remover = removed
+    · subst he
+      simp [h1, hm, errOf]
+    · cases hg : a.isManager <;> simp [errOf, errName, he]
+      all_goals
+        cases h2 : get? s removed with
+        | none => simp [errOf, errName]
+        | some m => cases hm2 : m.isMember <;> simp [errOf, errName, hm2]
+
+theorem c33_modify_checks_are_source (s : State K C) (modifier modified : K) (acc : Access C) :
+    errOf (GroupState.modify s modifier modified acc) =
+      modifyChecksT (knownB s modifier) (memberB s modifier) (managerB s modifier) (knownB s modified)
+        (memberB s modified) (decide (modifier = modified)) := by
+  unfold GroupState.modify modifyChecksT knownB memberB managerB
+  cases h1 : get? s modifier with
+  | none => simp [errOf, errName]
+  | some a =>
+    cases hm : a.isMember <;> cases hg : a.isManager <;> simp [errOf, errName, hm, hg]
+    cases h2 : get? s modified with
+    | none => simp [errOf, errName]
+    | some m =>
+      cases hm2 : m.isMember <;> simp [errOf, errName, hm2]
+      by_cases hacc : m.access = acc <;> simp [hacc, errOf]
+
+/-- Which identity each error carries (actor / target), in source order; the model's error variants
+    carry the same ones (`c33_add_err`, `c33_remove_err`, `c33_modify_err`). -/
+theorem c33_err_args_are_source :
+    addErrArgs = ["UnrecognisedActor:actor", "InactiveActor:actor", "InsufficientAccess:actor", "AlreadyAdded:target"]
+    ∧ removeErrArgs = ["UnrecognisedActor:actor", "InactiveActor:actor", "InsufficientAccess:actor",
+        "UnrecognisedMember:target", "AlreadyRemoved:target"]
+    ∧ modifyErrArgs = ["UnrecognisedActor:actor", "InactiveActor:actor", "InsufficientAccess:actor",
+        "InactiveMember:target", "UnrecognisedMember:target"] := by
+  decide
+
+private def interp (s : State K C) (viaModify : Except (Err K) (State K C)) (target : K) (r : String) :
+    Except (Err K) (State K C) :=
+  if r = "same" then .ok s else if r = "modify" then viaModify else .error (.unrecognisedMember target)
+
+/-- The model's `promote` / `demote` are the functions in `state.rs` now (translated whole by rs2lean):
+    unknown target first, then the no-op shortcut exactly under `target at level ∧ target active ∧
+    is_active_manager(actor)`, else `modify`. Removing one conjunct of the repaired shortcut (the pinned
+    tree's defect) breaks this theorem. -/
+theorem c33_promote_is_source (s : State K C) (p t : K) (acc : Access C) :
+    promote s p t acc =
+      interp s (GroupState.modify s p t acc) t
+        (promoteT (knownB s t) (memberB s t) (managerB s t) (isActiveManager s p)) := by
+  cases h : get? s t with
+  | none =>
+    have hk : knownB s t = false := by simp [knownB, h]
+    simp [promote, h, promoteT, hk, interp]
+  | some m =>
+    have hk : knownB s t = true := by simp [knownB, h]
+    have hm : memberB s t = m.isMember := by simp [memberB, h]
+    have hg : managerB s t = m.isManager := by simp [managerB, h]
+    simp only [promote, h, promoteT, hk, hm, hg, interp]
+    cases h1 : m.isManager <;> cases h2 : m.isMember <;> cases h3 : isActiveManager s p <;> simp
+
+theorem c33_demote_is_source (s : State K C) (p t : K) (acc : Access C) :
+    demote s p t acc =
+      interp s (GroupState.modify s p t acc) t
+        (demoteT (knownB s t) (memberB s t) (pullerB s t) (isActiveManager s p)) := by
+  cases h : get? s t with
+  | none =>
+    have hk : knownB s t = false := by simp [knownB, h]
+    simp [demote, h, demoteT, hk, interp]
+  | some m =>
+    have hk : knownB s t = true := by simp [knownB, h]
+    have hm : memberB s t = m.isMember := by simp [memberB, h]
+    have hg : pullerB s t = m.isPuller := by simp [pullerB, h]
+    simp only [demote, h, demoteT, hk, hm, hg, interp]
+    cases h1 : m.isPuller <;> cases h2 : m.isMember <;> cases h3 : isActiveManager s p <;> simp
+
+/-- The state updates of the model are the closure bodies in `state.rs` / `mod.rs` now (symbolically
+    executed): re-add (`member_counter += 1`, new access, access counter 0), remove (`+= 1`, counter 0),
+    modify (access replaced and access counter `+= 1` only if the access differs), `apply_remove_unsafe`
+    (`+= 1` only if odd), the fresh entries of `add` / `create`, and `is_member` = odd member counter. -/
+theorem c33_updates_are_source (m : MemberState C) (acc : Access C) :
+    (m.isMember = false → addModifyT m.mc m.ac m.access acc = (m.mc + 1, acc, 0))
+    ∧ (m.isMember = true → removeModifyT m.mc m.ac m.access = (m.mc + 1, m.access, 0))
+    ∧ modifyModifyT m.mc m.ac m.access acc
+        = (if m.access ≠ acc then (m.mc, acc, m.ac + 1) else (m.mc, m.access, m.ac))
+    ∧ (removeUnsafeT m.mc).1 = (if m.mc % 2 != 0 then m.mc + 1 else m.mc)
+    ∧ m.isMember = isMemberT m.mc
+    ∧ addInsert = "member_counter: 1, access, access_counter: 0,"
+    ∧ createEntry = "member_counter: 1, access: access.clone(), access_counter: 0,"
+    ∧ isActiveManagerBody = "state .members .get(actor) .is_some_and(|actor_state| actor_state.is_member() && actor_state.is_manager())" := by
+  refine ⟨?_, ?_, ?_, ?_, ?_, by decide, by decide, by decide⟩
+  · intro h
+    simp only [MemberState.isMember, beq_eq_false_iff_ne, ne_eq] at h
+    simp [addModifyT, h]
+  · intro h
+    simp only [MemberState.isMember, beq_iff_eq] at h
+    simp [removeModifyT, h]
+  · unfold modifyModifyT
+    by_cases h : m.access = acc <;> simp [h]
+  · unfold removeUnsafeT
+    by_cases h : m.mc % 2 = 0 <;> simp [h]
+  · unfold MemberState.isMember isMemberT
+    have : m.mc % 2 = 0 ∨ m.mc % 2 = 1 := by omega
+    rcases this with h | h <;> simp [h]
+
+/-- `validate` rejects in the order duplicate → manager group → cycle → state change error, judges the
+    action on `temp_y.inner.current_state()`, the manager-group guard covers exactly `Add | Promote`;
+    `apply_action` tests the filter before applying the action and `expect`s the group for non-create
+    actions — the order and shapes transcribed in `GroupCrdt.decide` / `applyAction`. -/
+theorem c33_validate_order_is_source :
+    validateOrder.map (·.1) = ["DuplicateOperation", "ManagerGroupsNotAllowed", "GroupCycle", "StateChangeError"]
+    ∧ validateOrder.map (·.2) = ["y.inner.operations.contains_key(&operation.id())",
+        "member.is_group() && access.is_manage() =>", "temp_y.inner.would_create_cycle(operation)", "=>"]
+    ∧ managerGuardPattern = "GroupAction::Add { member, access } | GroupAction::Promote { member, access }"
+    ∧ validateStateUsed = "temp_y.inner.current_state()"
+    ∧ filterBeforeAction = true
+    ∧ applyActionMissingGroup = "if action.is_create() { GroupMembersState::default() } else { groups_y .remove(&group_id) .expect(\"group already present in states map\") }" := by
+  exact ⟨rfl, rfl, rfl, rfl, rfl, rfl⟩
+
+end Source
 
 /-! ### Non-vacuity -/
 
